@@ -208,6 +208,11 @@ def _routing_run(prop, tier):
     fam["samples"] = fam["samples_by_prop"][prop] or fam["samples_by_prop"]["C02"]
     if prop in ("C07", "C13"):
         fam["mc"] = fam.get("mc_cp")
+        l2 = fam.get("l2_ctl") or {}
+        fam["kinds"] = dict(fam.get("kinds") or {}, l2_coord_trace={k: l2.get(k) for k in ("runs", "steps", "divergent_runs", "divergence_count", "divergences")})
+        if l2.get("divergence_count"):
+            print("DIVERGENCE: %d recorded control-plane calls of %d runs are not steps of the chain automata of spec/Coord.tla (L2, spec/Coord_Trace.tla); "
+                  "no alarm by itself, see evidence: %s" % (l2["divergence_count"], l2["divergent_runs"], json.dumps(l2["divergences"][:2])[:600]))
     return _codec_finish(prop, tier, fam, t0, _ROUTING_RULES[prop],
         ["the served view recorded from the broker in the same trace is the reference (C01 covers its well-formedness)",
          "observations taken while some proxy's epoch differs from the served one are skipped (counted as skipped_unsynced)",
